@@ -6,7 +6,7 @@ def _c15_case(c):
     # (bin/check search step b); the direct cases can be rebuilt from their model line.
     import json as _json
     p = c.split(" ")
-    if p[0] == "C" and p[-1].startswith("J"):
+    if p[0] in ("C", "W") and p[-1].startswith("J"):
         return _json.loads(bytes.fromhex(p[-1][1:]).decode("utf-8"))
     if p[0] == "L":
         return {"op": "link", "cmp": p[1], "header": unhex(p[2])}
